@@ -582,7 +582,7 @@ func (m *mach) opMelt(t *rapid.T) {
 	if amt == 0 {
 		return
 	}
-	variant := rapid.SampledFrom([]string{"paid", "paid", "pending", "unpaid", "quote_unit", "quote_over_limit", "insufficient", "unknown_quote"}).Draw(t, "melt_variant")
+	variant := rapid.SampledFrom([]string{"paid", "paid", "paid_after_error", "pending", "unpaid", "quote_unit", "quote_over_limit", "insufficient", "unknown_quote"}).Draw(t, "melt_variant")
 	if variant == "quote_unit" {
 		inv := m.w.Net.ExternalInvoice(amt * 1000)
 		r := m.do("POST", "/v1/melt/quote/bolt11", obj(kv{"request", inv.Request}, kv{"unit", "eur"}))
@@ -615,6 +615,9 @@ func (m *mach) opMelt(t *rapid.T) {
 	switch variant {
 	case "paid":
 		m.w.LN.PayScript = []lnmodel.PayAnswer{lnmodel.PaySuccess}
+	case "paid_after_error":
+		// the answer to the pay call is lost although the payment went through; the mint's own lookup finds it
+		m.w.LN.PayScript, m.w.LN.ErrTruth = []lnmodel.PayAnswer{lnmodel.PayError}, lnmodel.TruthSucceeded
 	case "pending":
 		m.w.LN.PayScript = []lnmodel.PayAnswer{lnmodel.PayPending}
 	case "unpaid":
@@ -625,7 +628,7 @@ func (m *mach) opMelt(t *rapid.T) {
 		qid = strings.Repeat("0", 64)
 	}
 	r = m.do("POST", "/v1/melt/bolt11", obj(kv{"quote", qid}, kv{"inputs", inJSON}))
-	m.w.LN.PayScript = nil
+	m.w.LN.PayScript, m.w.LN.ErrTruth = nil, lnmodel.TruthNone
 	m.logf("melt %s -> %d %s", variant, r.Status, trunc(r.Body))
 	switch variant {
 	case "insufficient":
@@ -644,12 +647,17 @@ func (m *mach) opMelt(t *rapid.T) {
 		return
 	}
 	rec.NonTrivial("melt_" + variant)
-	wantState := map[string]string{"paid": "PAID", "pending": "PENDING", "unpaid": "UNPAID"}[variant]
+	wantState := map[string]string{"paid": "PAID", "paid_after_error": "PAID", "pending": "PENDING", "unpaid": "UNPAID"}[variant]
+	if wantState == "PAID" {
+		if inv := m.w.Net.InvoiceByHash(inv.Hash); inv != nil && o["payment_preimage"] != inv.Preimage {
+			m.fail("melt_preimage_differs_from_invoice|"+variant, "response says %v, the invoice's preimage is %s", o["payment_preimage"], inv.Preimage)
+		}
+	}
 	if o["state"] != wantState {
 		m.fail("melt_state|want="+wantState, "got %v", o["state"])
 	}
 	switch variant {
-	case "paid":
+	case "paid", "paid_after_error":
 		m.w.AcceptInputs("melt", inputs, world.Spent, -1)
 		// melting again on the paid quote
 		r2 := m.do("POST", "/v1/melt/bolt11", obj(kv{"quote", qid}, kv{"inputs", inJSON}))
